@@ -162,7 +162,7 @@ func (r *Receiver) registerMsg(ack msgReception, from uint16, msg Message) {
 		r.reception[ack].m = msg
 	}
 
-	if len(r.reception[ack].idSet) == r.N-1 && !r.reception[ack].delivered {
+	if len(r.reception[ack].idSet) == r.N-1 && r.reception[ack].m != nil && !r.reception[ack].delivered {
 		r.Logger.Debugf("Collected enough acknowledgements (from %v) on {sender: %d, digest: %s, round: %d}",
 			r.reception[ack].idSet, ack.sender, hex.EncodeToString([]byte(ack.digest[:8])), ack.msgRound)
 		r.reception[ack].delivered = true
